@@ -66,6 +66,10 @@ def run(repo, tier):
     rep.analysed['refusal sites reached'] = len(sites)
     encprops.check_registers(rep, facts, 'R6.registers')
     check_bake_identity(rep, facts, 'R6.bake-identity')
+    # an operand that a compression rule drops never reaches an encoder: the rule itself has to pin it to the one value the
+    # compressed form stands for, or an out-of-range operand (addi x0, x0, 5000 -> c.nop) is accepted under -c
+    from ..comprel import CompRel, check_final_immediates
+    check_final_immediates(rep, CompRel(facts), 'R6.dropped-operand')
     rep.floor('immediate baking sites', 1)
     rep.floor('mnemonic bindings', 93)
     rep.floor('refusal sites reached', 30)
